@@ -3,6 +3,8 @@ package primsim
 import (
 	"encoding/json"
 	"fmt"
+	"io"
+	"log"
 	"os"
 	"path/filepath"
 	"strings"
@@ -159,6 +161,7 @@ func Worker(t *testing.T) {
 	}
 	sim.PinProcess()
 	sim.SeedRuntime(1)
+	log.SetOutput(io.Discard)
 	res := sim.NewResult(env.Prop)
 	defer func() {
 		res.WallS = env.Elapsed()
